@@ -667,3 +667,23 @@ mut("C20", "r4-second-shutdown-returns-early", "log/logging.go",
     "\tif shutdownFlag.SetToIf(false, true) {\n\t\tclose(shutdownSignal)\n\t}\n\tshutdownWaitGroup.Wait()", "\tif !shutdownFlag.SetToIf(false, true) {\n\t\treturn\n\t}\n\tclose(shutdownSignal)\n\tshutdownWaitGroup.Wait()", "C20-R4|log.Shutdown / waits for the writer", comment="round-2 seed C20-b1")
 mut("C20", "r1-tracer-ignores-global-level", "log/trace.go",
     "\t\t\t} else {\n\t\t\t\t// no package level set, check against global level\n\t\t\t\tif uint32(TraceLevel) < atomic.LoadUint32(logLevel) {\n\t\t\t\t\treturn ctx, nil\n\t\t\t\t}\n\t\t\t}", "\t\t\t}", "C20-R1|log.AddTracer / tracer creation table", comment="round-2 seed C20-b2")
+
+# ---- A10 error discipline ---------------------------------------------------------
+mut("C13", "r8-delete-error-dropped", "api/database.go",
+    "\terr := api.db.Delete(key)\n\tif err != nil {\n\t\tapi.send(opID, dbMsgTypeError, err.Error(), nil)\n\t\treturn\n\t}\n\tapi.send(opID, dbMsgTypeSuccess", "\t_ = api.db.Delete(key)\n\tapi.send(opID, dbMsgTypeSuccess", "C13-R8|api.(*DatabaseAPI).handleDelete / error of database.Interface.Delete")
+mut("C02", "r10-delete-put-error-dropped", "database/interface.go",
+    "\ti.updateCache(r, false, true, 0)\n\n\treturn db.Put(r)", "\ti.updateCache(r, false, true, 0)\n\n\t_ = db.Put(r)\n\treturn nil", "C02-R10|database.(*Interface).Delete / error of database.Controller.Put")
+mut("C17", "r5-createatomic-rename-error-dropped", "utils/atomic.go",
+    "\tif err := tmpFile.CloseAtomicallyReplace(); err != nil {\n\t\treturn fmt.Errorf(\"failed to rename temp file to %q\", dest)\n\t}", "\t_ = tmpFile.CloseAtomicallyReplace()", "C17-R5|utils.CreateAtomic / error of utils/renameio.PendingFile.CloseAtomicallyReplace")
+mut("C04", "r8-loadconfig-parse-error-dropped", "config/persistence.go",
+    "\tnewValues, err := JSONToMap(data)\n\tif err != nil {\n\t\treturn err\n\t}", "\tnewValues, _ := JSONToMap(data)", "C04-R8|config.loadConfig / error of config.JSONToMap")
+mut("C19", "r8-fetch-finalize-error-dropped", "updater/fetch.go",
+    "\terr = atomicFile.CloseAtomicallyReplace()\n\tif err != nil {\n\t\treturn fmt.Errorf(\"%s: failed to finalize file %s: %w\", reg.Name, rv.storagePath(), err)\n\t}", "\t_ = atomicFile.CloseAtomicallyReplace()", "C19-R8|updater.(*ResourceRegistry).fetchFile / error of utils/renameio.PendingFile.CloseAtomicallyReplace")
+mut("C09", "r7-httpload-error-dropped", "formats/dsd/http.go",
+    "\terr = LoadAsFormat(data, format, t)\n\treturn format, err", "\t_ = LoadAsFormat(data, format, t)\n\treturn format, nil", "C09-R7|formats/dsd.MimeLoad / error of formats/dsd.LoadAsFormat")
+mut("C08", "r8-meta-load-error-dropped", "database/record/wrapper.go",
+    "\t_, err = dsd.Load(metaSection, newMeta)\n\tif err != nil {\n\t\treturn nil, fmt.Errorf(\"could not unmarshal meta section: %w\", err)\n\t}", "\t_, _ = dsd.Load(metaSection, newMeta)", "C08-R8|database/record.NewRawWrapper / error of formats/dsd.Load")
+mut("C14", "r6-pregethook-veto-dropped", "database/controller.go",
+    "\tif err := c.runPreGetHooks(key); err != nil {\n\t\treturn nil, err\n\t}", "\t_ = c.runPreGetHooks(key)", "C14-R6|database.(*Controller).Get / error of database.Controller.runPreGetHooks")
+mut("C12", "r8-session-error-dropped", "api/authentication.go",
+    "\terr = createSession(w, r, token)", "\t_ = createSession(w, r, token)", "C12-R8|api.checkAuth / error of api.createSession")
